@@ -29,6 +29,13 @@ def dep_key(ctx, rule="C04.dep-key"):
         ctx.ob(rule, f.site, ok_dep and union, "" if ok_dep and union else "dependencies do not include the wires of "
                "measured parameters: a gate may be moved before the measurement it depends on", role=f"ret{i}:deps",
                line=r.lineno)
+        # ... ALL of them: no filtering comprehension / conditional on the way (the state of a RegRef - measured, active - is the
+        # end-of-program or previous-run state, not the state at the command's position)
+        filt = [e for e in d.exprs if isinstance(e, (ast.ListComp, ast.SetComp, ast.GeneratorExp, ast.DictComp)) and
+                any(g_.ifs for g_ in e.generators) or isinstance(e, ast.IfExp) or
+                isinstance(e, ast.Call) and dotted(e.func) in ("filter",)]
+        ctx.ob(rule, f.site, not filt, "" if not filt else f"`{ast.unparse(filt[0])[:50]}` drops some of the dependencies depending on "
+               "the current state of the RegRefs", role=f"ret{i}:unfiltered", line=r.lineno)
     g = ctx.tree.func("ops.py", "Operation.__init__")
     cfg = cfg_of(g.node)
     par = g.pos_params[1]
@@ -106,6 +113,12 @@ def grid_key(ctx, rule="C04.grid-key"):
                             ok = True
     ctx.ob(rule, f.site, ok, "" if ok else "commands are not filed under r.ind for every r of cmd.get_dependencies()",
            role="file-under-deps", line=f.node.lineno)
+    # ... for EVERY dependency of EVERY command: the filing is not conditional (no if / continue / break inside the loops)
+    cond = [n for n in walk_no_nested(f.node) if isinstance(n, (ast.If, ast.Continue, ast.Break, ast.IfExp)) or
+            isinstance(n, (ast.ListComp, ast.GeneratorExp, ast.SetComp)) and any(g_.ifs for g_ in n.generators)]
+    ctx.ob(rule, f.site, not cond, "" if not cond else f"list_to_grid files commands conditionally (`{ast.unparse(cond[0])[:40]}`): a command "
+           "that is left out of a wire is unordered with respect to the other commands of that wire (or vanishes altogether)",
+           role="file-unconditionally", line=(cond[0].lineno if cond else f.node.lineno))
     g = ctx.tree.func(PU, "grid_to_DAG")
     edges = [n for n in walk_no_nested(g.node) if isinstance(n, ast.Call) and isinstance(n.func, ast.Attribute)
              and n.func.attr == "add_edge" and len(n.args) >= 2]
